@@ -316,7 +316,15 @@ func authenticateConnection(p2id participant2ID, conn net.Conn, logger Logger) (
 	sig := h.Signature
 	h.Signature = nil
 
-	if !ecdsa.VerifyASN1(pk, sha256Digest(h.Bytes()), sig) {
+	// The handshake came from the network: unlike Bytes(), do not panic if it cannot be re-encoded
+	// (e.g. a domain string that is not valid UTF-8, which the ASN.1 decoder accepts in some string types).
+	signedBytes, err := asn1.Marshal(h)
+	if err != nil {
+		logger.Warnf("Handshake received cannot be re-encoded: %v", err)
+		return "", 0, false
+	}
+
+	if !ecdsa.VerifyASN1(pk, sha256Digest(signedBytes), sig) {
 		logger.Warnf("Signature mismatch")
 		return "", 0, false
 	}
